@@ -119,5 +119,28 @@ theorem hasDerivAt_line (I : String → List ℝ → ℝ) (ρ d : V → ℝ) (e 
     exact (ha hp).neg
   | happ f args _ => simp [isPoly] at hp
 
+/-- tensor pairs: the direction of `linearize(f, 'u:v')` moves *every* entry `u[i]` along `v[i]` and nothing else -/
+theorem direction_entries {R : Type} [CommRing R] (ρ : String × Nat → R) (u v : String) (l : List Nat) (hnd : l.Nodup)
+    (y : String × Nat) :
+    direction ρ (l.map fun i => ((u, i), (v, i))) y = if y.1 = u ∧ y.2 ∈ l then ρ (v, y.2) else 0 := by
+  induction l with
+  | nil => simp [direction]
+  | cons a t ih =>
+    rw [List.nodup_cons] at hnd
+    simp only [List.map_cons, direction, ih hnd.2]
+    obtain ⟨x, j⟩ := y
+    by_cases hx : x = u
+    · subst hx
+      by_cases hj : j = a
+      · subst hj; simp [hnd.1]
+      · simp [hj]
+    · simp [hx]
+
+theorem direction_expandPair {R : Type} [CommRing R] (ρ : String × Nat → R) (u v : String) (n : Nat) (y : String × Nat) :
+    direction ρ (expandPair u v n) y = if y.1 = u ∧ y.2 < n then ρ (v, y.2) else 0 := by
+  unfold expandPair
+  rw [direction_entries ρ u v (List.range n) List.nodup_range y]
+  simp [List.mem_range]
+
 end Expr
 end NutilsVerif.C13
